@@ -269,6 +269,40 @@ def run_history(text_q, text_v, vals, history):
     return 'checked', out
 
 
+def run_large(ctx):
+    """Bulk statements: the number of placeholders at and around the sizes where a count stops fitting a byte / two bytes.  Every one
+    of them is reported and bound, in order (the statement says `any statement containing n placeholders`)."""
+    from mindsdb_sql import parse_sql
+    from mindsdb_sql.planner.query_planner import QueryPlanner
+    from mindsdb_sql.exceptions import PlanningException
+    acc = ctx.acc
+    shapes = [(51, 5), (85, 3), (256, 1), (257, 1), (819, 5), (13107, 5), (21845, 3), (13108, 5)]
+    for rows, cols in shapes:
+        n = rows * cols
+        names = ', '.join('abcde'[:cols])
+        sql = f'INSERT INTO int1.t1 ({names}) VALUES ' + ', '.join(['(' + ', '.join(['?'] * cols) + ')'] * rows)
+        acc.ev()
+        acc.count('large_statements_checked')
+        try:
+            q = parse_sql(sql, 'mindsdb')
+            pl = QueryPlanner(q, integrations=['int1'])
+            for _ in pl.prepare_steps(q):
+                pass
+            reported = len(pl.get_statement_info()['parameters'])
+            vals = list(range(1001, 1001 + n))
+            steps = list(pl.execute_steps(list(vals)))
+            got = [getattr(c, 'value', c) for st in steps for row in (getattr(getattr(st, 'query', None), 'values', None) or []) for c in row]
+        except (PlanningException, NotImplementedError) as e:
+            acc.fail({'defect': 'large-statement-rejected', 'placeholders': n, 'position': 'insert-values-bulk'}, {'error': str(e)[:200], 'rows': rows, 'cols': cols})
+            continue
+        if reported != n:
+            acc.fail({'defect': 'parameter-count', 'placeholders': n, 'position': 'insert-values-bulk'}, {'reported': reported})
+        elif got != vals:
+            bad = next((i for i, (a, b) in enumerate(zip(got, vals)) if a != b), min(len(got), len(vals)))
+            acc.fail({'defect': 'bound-differently-from-inline', 'placeholders': n, 'position': 'insert-values-bulk'},
+                     {'first_difference_at': bad, 'got_len': len(got), 'got': repr(got[max(0, bad - 2):bad + 3])})
+
+
 def run_shard(ctx):
     from mindsdb_sql import parse_sql
     from mindsdb_sql.planner import utils as putils
@@ -278,6 +312,8 @@ def run_shard(ctx):
     for _ in range(900 if ctx.tier == 'quick' else 30000):
         cases.append(compose(r))
     histories = ['plain', 'plain', 'too-few', 'too-many', 'prepare-twice', 'second-execute', 'interleaved-prepare']
+    if ctx.shard == 0:
+        run_large(ctx)
     idx = -1
     for ci, (label, tmpl) in enumerate(cases):
         for hi, h in enumerate(histories if label != 'composed' else [histories[ci % len(histories)], 'plain']):
